@@ -124,6 +124,14 @@ def args_probe(mode):
                         f'variants and metadata were filled in) differs from the same build before that use: '
                         f'{len(again_z)} vs {len(fresh_z)} bytes')
     digests.append(hashlib.sha1(fresh_z).hexdigest())
+    # one definition per constructible unit class of the library: the bytes must not depend on the hash
+    # seed, the mode or what was built before (digests are compared across all configurations)
+    try:
+        sw = c01.class_sweep({'mode': mode, 'digest': True, 'noinit': True})
+        digests.append(hashlib.sha1(' '.join(f'{r[0]}.{r[1]}:{r[-1]}' for r in sw).encode()).hexdigest())
+        digests.append(f'classes={len(sw)}')
+    except Exception as e:
+        problems.append(f'class sweep raised {type(e).__name__}: {e}'[:200])
     return problems + ['DIGESTS ' + ' '.join(digests)]
 
 
